@@ -214,5 +214,41 @@ def oracles(ctx, deep):
                 mm = m.reshape(-1, shape[-3], shape[-2])
                 if not bool((mm == mm[:, :1, :]).all()):
                     add(Violation("line-rows-identical", "%s (%s): the %s of a line generator differs between rows of a frame" % (name, mode, which), {"config": cfg, "which": which}, {"generator": name, "kind": "rows"}))
+    # one generator object serves every sample of a data set: shapes change from call to call
+    rng = ctx.rng
+    for name in G.ALL:
+        for rep in range(ctx.n(1, 4)):
+            mode = "dynamic" if name in G.KT else rng.choice(["static", "dynamic"])
+            seq = []
+            for _ in range(60):
+                cfg0 = G.random_config(rng, names=[name], small=True)
+                if cfg0[1] == mode or (mode == "static" and cfg0[1] == "static"):
+                    seq.append(cfg0)
+                if len(seq) == 4:
+                    break
+            if len(seq) < 2:
+                continue
+            accel, cf = seq[0][3], seq[0][4]
+            seq = [c_ for c_ in seq if cf == 0 or G.feasible(name, c_[2], accel, cf)]
+            if len(seq) < 2:
+                continue
+            try:
+                mf = G.build(name, accel, cf, mode)
+            except Exception:  # noqa
+                continue
+            for i, c_ in enumerate(seq):
+                shape = c_[2]
+                runs += 1
+                for which, acs in (("mask", False), ("acs", True)):
+                    r = G.call(mf, shape, rng.randrange(10**6), acs, seconds=8)
+                    cfgd = {"generator": name, "mode": mode, "shapes_served_before": [x[2] for x in seq[:i]], "shape": shape, "acceleration": accel, "center_fraction": cf}
+                    if r[0] == "hang":
+                        add(Violation("returns", "%s (%s): a generator that served other shapes before did not return within 8 s for shape %s (%s)" % (name, mode, shape, which), {"config": cfgd, "which": which}, {"generator": name, "kind": "hang-reuse"}))
+                    elif r[0] == "raises" and (r[1] != "ValueError" or "Cannot generate mask to satisfy accel" not in r[2]):
+                        add(Violation("documented-error", "%s (%s): a generator that served shapes %s before raises %s: %s for shape %s (%s)" % (name, mode, cfgd["shapes_served_before"], r[1], r[2], shape, which), {"config": cfgd, "which": which}, {"generator": name, "kind": "raises-reuse", "exception": r[1]}))
+                    elif r[0] == "ok":
+                        m = r[1]
+                        if m.dtype != torch.bool or list(m.shape)[-3:-1] != list(shape)[-3:-1]:
+                            add(Violation("geometry", "%s (%s): a reused generator returns %s of shape %s for k-space shape %s" % (name, mode, which, list(m.shape), shape), {"config": cfgd, "which": which}, {"generator": name, "kind": "geometry-reuse"}))
     ctx.oracle_runs = runs
     return out
